@@ -391,6 +391,14 @@ func (e *Engine) heapSortByName(c *FnCtx, name string) (string, bool) {
 		return "Int", true
 	case "OPAQUE":
 		return "Int", true
+	case "HC_bool":
+		return "(Array Int Bool)", true
+	case "HC_int":
+		return "(Array Int Int)", true
+	case "HC_string":
+		return "(Array Int Str)", true
+	case "HC_any", "HC_error":
+		return "(Array Int Val)", true
 	case "HE_any":
 		return "(Array Int (Array Int Val))", true
 	case "HE_uint8", "HE_int", "HE_int32":
